@@ -26,15 +26,20 @@ VARIABLES net,       \* datagrams waiting in the socket: sequence of [kind, send
 vars == <<net, narr, pc, cur, reads, spawned, closed, ret>>
 
 Kinds == {"valid", "undec", "empty", "err"}
-Senders == {"ip", "noip", "zeroip"}
+Senders == {"ip", "noip", "zeroip", "nonudp"}      \* nonudp: the connection reports a sender that is not a UDP address
 NoDgram == [kind |-> "none", ri |-> 0, content |-> 0]
 
 Init == /\ net = <<>> /\ narr = 0 /\ pc = [l \in Loops |-> "loop"] /\ cur = [l \in Loops |-> NoDgram] /\ reads = <<>>
         /\ spawned = <<>> /\ closed = FALSE /\ ret = [l \in Loops |-> "none"]
 
 \* the peer handed to the handler
-PeerOf(d) == IF V4 /\ d.sender \in {"noip", "zeroip"} THEN [addr |-> "bcast", port |-> d.port]
+PeerOf(d) == IF d.sender = "nonudp" THEN [addr |-> "nonudp", port |-> 0]
+             ELSE IF V4 /\ d.sender \in {"noip", "zeroip"} THEN [addr |-> "bcast", port |-> d.port]
              ELSE [addr |-> d.sender, port |-> d.port]
+\* the DHCPv4 server answers over UDP only: a datagram whose sender is not a UDP address is logged and skipped
+\* (a deviation of server4 from "every datagram that decodes"; server6 hands any sender to the handler)
+Dispatchable(d) == d.kind = "valid" /\ ~(V4 /\ d.sender = "nonudp")
+Skipped(d) == d.kind \in {"undec", "empty"} \/ (V4 /\ d.kind = "valid" /\ d.sender = "nonudp")
 
 Arrive(kind, sender, port) ==
     /\ net' = Append(net, [kind |-> kind, sender |-> sender, port |-> port, id |-> narr + 1])
@@ -69,11 +74,11 @@ ReadErrReturn(l) == /\ pc[l] = "failed"
 ReadClosed(l) == /\ pc[l] = "blocked" /\ closed
                  /\ pc' = [pc EXCEPT ![l] = "returned"] /\ ret' = [ret EXCEPT ![l] = "closed"]
                  /\ UNCHANGED <<net, narr, cur, reads, spawned, closed>>
-ParseFail(l) == /\ pc[l] = "parse" /\ cur[l].kind \in {"undec", "empty"}
+ParseFail(l) == /\ pc[l] = "parse" /\ Skipped(cur[l])
                 /\ IF StopOnParseError THEN pc' = [pc EXCEPT ![l] = "returned"] /\ ret' = [ret EXCEPT ![l] = "parseerr"] /\ closed' = TRUE
                    ELSE pc' = [pc EXCEPT ![l] = "loop"] /\ UNCHANGED <<ret, closed>>
                 /\ UNCHANGED <<net, narr, cur, reads, spawned>>
-Spawn(l) == /\ pc[l] = "parse" /\ cur[l].kind = "valid"
+Spawn(l) == /\ pc[l] = "parse" /\ Dispatchable(cur[l])
             /\ spawned' = Append(spawned, [id |-> cur[l].id, peer |-> PeerOf(cur[l]), content |-> cur[l].content, done |-> FALSE, loop |-> l])
             /\ pc' = [pc EXCEPT ![l] = "loop"]
             /\ UNCHANGED <<net, narr, cur, reads, closed, ret>>
@@ -86,8 +91,8 @@ CloseCall == /\ ~closed /\ closed' = TRUE
 LoopStep(l) == CallRead(l) \/ Read(l) \/ ReadErrReturn(l) \/ ReadClosed(l) \/ ParseFail(l) \/ Spawn(l)
 
 \* --------------------------------------------------------------- properties (C14)
-ValidRead == {i \in DOMAIN reads : reads[i].kind = "valid"}
-InParse == {cur[l].ri : l \in {m \in Loops : pc[m] = "parse" /\ cur[m].kind = "valid"}}
+ValidRead == {i \in DOMAIN reads : Dispatchable(reads[i])}
+InParse == {cur[l].ri : l \in {m \in Loops : pc[m] = "parse" /\ Dispatchable(cur[m])}}
 Handled == ValidRead \ InParse
 \* exactly once for each datagram that decodes, never for one that does not; in read order when one loop serves
 ExactlyOnce == /\ Len(spawned) = Cardinality(Handled)
